@@ -83,30 +83,54 @@ func NewBuffer[K comparable, V any]() *Buffer[K, V] {
 //
 // item may be lost due to contention.
 func (b *Buffer[K, V]) Add(n ReadBufItem[K, V]) *PolicyBuffers[K, V] {
+	if verifOn {
+		verifAt(VpBufLoadHead, b, n.entry, nil)
+	}
 	head := b.head.Load()
+	if verifOn {
+		verifAt(VpBufLoadTail, b, n.entry, nil)
+	}
 	tail := b.tail.Load()
 	size := tail - head
 	if size >= capacity {
 		// full buffer
+		if verifOn {
+			verifAt(VpBufFull, b, n.entry, nil)
+		}
 		return nil
+	}
+	if verifOn {
+		verifAt(VpBufCasTail, b, n.entry, nil)
 	}
 	if b.tail.CompareAndSwap(tail, tail+1) {
 		// success
 		index := int(tail & mask)
+		if verifOn {
+			verifAt(VpBufPublish, b, n.entry, nil, int64(index))
+		}
 		atomic.StorePointer(&b.buffer[index], unsafe.Pointer(&ReadBufItem[K, V]{
 			entry: n.entry,
 			hash:  n.hash,
 		}))
 		if size == capacity-1 {
 			// try return new buffer
+			if verifOn {
+				verifAt(VpBufCasToken, b, n.entry, nil)
+			}
 			if !atomic.CompareAndSwapPointer(&b.returned, b.policyBuffers, nil) {
 				// somebody already get buffer
+				if verifOn {
+					verifAt(VpBufRet, b, n.entry, nil, 0, 1)
+				}
 				return nil
 			}
 
 			pb := (*PolicyBuffers[K, V])(b.policyBuffers)
 			for i := 0; i < capacity; i++ {
 				index := int(head & mask)
+				if verifOn {
+					verifAt(VpBufDrainSlot, b, n.entry, nil, int64(index))
+				}
 				v := atomic.LoadPointer(&b.buffer[index])
 				if v != nil {
 					// published
@@ -117,12 +141,25 @@ func (b *Buffer[K, V]) Add(n ReadBufItem[K, V]) *PolicyBuffers[K, V] {
 				head++
 			}
 
+			if verifOn {
+				verifAt(VpBufStoreHead, b, n.entry, nil, int64(head))
+			}
 			b.head.Store(head)
+			if verifOn {
+				verifAt(VpBufRet, b, n.entry, pb, 1, 0)
+			}
 			return pb
+		}
+		if verifOn {
+			verifAt(VpBufRet, b, n.entry, nil, 0, 0)
+			return nil
 		}
 	}
 
 	// failed
+	if verifOn {
+		verifAt(VpBufRet, b, n.entry, nil, 0, 2)
+	}
 	return nil
 }
 
@@ -151,6 +188,9 @@ func (b *Buffer[K, V]) Free() {
 		pb.Returned[i].hash = 0
 	}
 	pb.Returned = pb.Returned[:0]
+	if verifOn {
+		verifAt(VpBufFree, b, nil, nil)
+	}
 	atomic.StorePointer(&b.returned, b.policyBuffers)
 }
 
